@@ -601,52 +601,62 @@ MC_DEFS = 'MCBound == steps <= %d\nMCView == <<cache, rule, fileM, up, clock, lo
 
 
 def model_checks(ctx, prec):
-    """Exhaustive: every history of <= 6 actions (thorough: 7) for both creation paths.  `steps` is a state variable,
-    so the bound is exact with any number of workers; `reply` is an observation and left out of the VIEW.  A
-    second, shallow run with coverage is the vacuity guard (every outcome-named action must be taken)."""
+    """Exhaustive: every history of <= 6 actions (thorough: meta path 7) for both creation paths.  `steps` is a state
+    variable, so the bound is exact with any number of workers; `reply` is an observation and left out of the VIEW.
+    A second, shallow run (<= 4 actions, full states) dumps the state graph: it is the vacuity guard (every
+    outcome-named action must label an edge) and the source of the class cover replayed on the real code."""
     thorough = ctx.tier == 'thorough'
     rules, seedrules = (FULL_RULES, FULL_SEED) if thorough else (QUICK_RULES, QUICK_SEED)
     results = {}
 
-    def one(name, path, trunc, steps, coverage):
+    def one(name, path, trunc, steps, graph):
         d = ctx.sub('mc-' + name)
-        mp, cp = tlc.write_mc(d, 'Expiry', 'MC_Expiry', consts_for(['t1', 't2'], path, trunc, rules, seedrules, prec,
-                                                                    9 if thorough else 7),
-                              invariants=['TypeOK', 'UnitUniform'], properties=['PropOutcome'] + props_for(prec),
-                              constraint='MCBound', view='MCView', extra_defs=MC_DEFS % steps)
-        results[name] = tlc.run(mp, cp, d, workers=4 if coverage else 8, timeout=3000, coverage=coverage)
+        kw = dict(constraint='MCBound', extra_defs=MC_DEFS % steps)
+        if not graph:
+            kw['view'] = 'MCView'
+        mp, cp = tlc.write_mc(d, 'Expiry', 'MC_Expiry', consts_for(['t1', 't2'], path, trunc, rules if not graph else
+                                                                    QUICK_RULES, seedrules if not graph else QUICK_SEED,
+                                                                    prec, 9 if thorough else 7),
+                              invariants=['TypeOK', 'UnitUniform'], properties=['PropOutcome'] + props_for(prec), **kw)
+        results[name] = tlc.run(mp, cp, d, workers=4 if graph else 8, timeout=3000, coverage=False,
+                                dump=os.path.join(d, 'graph') if graph else None)
 
     jobs = []
     for path in ('single', 'meta'):
         for trunc in ((False, True) if thorough else (False,)):
             nm = '%s%s' % (path, '-trunc' if trunc else '')
             jobs.append((nm, path, trunc, 7 if thorough and path == 'meta' else 6, False))
-            jobs.append((nm + '-cov', path, trunc, 4, True))
+            jobs.append((nm + '-graph', path, trunc, 4, True))
     threads = [threading.Thread(target=one, args=j) for j in jobs]
     for k in range(0, len(threads), 2):
         for t in threads[k:k + 2]:
             t.start()
         for t in threads[k:k + 2]:
             t.join()
-    for name, path, trunc, steps, coverage in jobs:
+    covers = {}
+    for name, path, trunc, steps, graph in jobs:
         r = results[name]
         ctx.log('Expiry %s (precedence %s, histories <= %d): %r' % (name, prec, steps, r))
         if r.violated:
-            if not coverage:
+            if not graph:
                 reproduce_counterexample(ctx, r, path, 'sqlite' if trunc else 'file')
             continue
         if not r.ok:
             raise tlc.MachineryError('Expiry.tla %s: %r\n%s' % (name, r, r.out[-1500:]))
-        if coverage:
+        if graph:
+            behs, nedges, taken = class_cover(os.path.join(ctx.sub('mc-' + name), 'graph.dot'))
             # the meta path has no stale fallback: a failed refresh is reported
             expect = [a for a in ACTIONS if not (path == 'meta' and a == 'RequestStaleServed')]
-            missing = [a for a in expect if r.coverage.get(a, (0, 0))[1] == 0]     # (taken, not: found new states)
+            missing = [a for a in expect if not taken.get(a)]
             if missing:
                 raise tlc.MachineryError('Expiry.tla %s: actions never taken: %s' % (name, missing))
-            if path == 'meta' and r.coverage.get('RequestStaleServed', (0, 0))[1] != 0:
+            if path == 'meta' and taken.get('RequestStaleServed'):
                 raise tlc.MachineryError('Expiry.tla %s: stale fallback on the meta path?' % name)
+            covers[(path, trunc)] = behs
+            ctx.log('state graph %s: %d edges, %d transition classes' % (name, nedges, len(behs)))
         else:
             ctx.add_tlc('Expiry/' + name, r)
+    return covers
 
 
 def reproduce_counterexample(ctx, r, path, backend):
@@ -732,8 +742,11 @@ def transition_class(label, s):
     elif name.startswith('Seed'):
         sr = {'kind': str(args[0]['kind']), 'arg': int(args[0]['arg'])}
         sthr = thr_ticks(sr, clock, file_m)
+        def coarse(e):          # under the cache's own rule: only fresh / stale matters (precedence of the rules)
+            c = _cls(e, thr)
+            return c if not c.startswith('rel') else 'fresh' if c[3] == '+' and c[4] != '0' else 'stale'
         key += [rule['kind'], sr['kind'], sthr % 2,
-                tuple(sorted((_cls(e, sthr), _cls(e, thr)) for e in s['cache'].values()))]
+                tuple(sorted((_cls(e, sthr), coarse(e)) for e in s['cache'].values()))]
     elif name == 'Tick':
         key += [int(args[0]), clock % 2]
     elif name == 'SetThreshold':
@@ -759,8 +772,11 @@ def class_cover(graph_file):
                 parent[b] = (a, lab)
                 order.append(b)
     chosen = {}
+    taken = {}
     for a in order:
         for lab, b in sorted(succ.get(a, [])):
+            nm = parse_action(lab)[0]
+            taken[nm] = taken.get(nm, 0) + 1
             k = transition_class(lab, states[a])
             if k not in chosen:
                 chosen[k] = (a, lab, b)
@@ -774,7 +790,7 @@ def class_cover(graph_file):
             x = px
         path.append(('Init', states[x]))
         behs.append(path[::-1])
-    return behs, len(edges)
+    return behs, len(edges), taken
 
 
 def simulate(ctx, name, names, path, trunc, rules, seedrules, prec, num, depth, seed, maxclock):
@@ -789,40 +805,51 @@ def simulate(ctx, name, names, path, trunc, rules, seedrules, prec, num, depth, 
     return behs
 
 
-def spec_to_code(ctx, prec, tally):
+def spec_to_code(ctx, prec, tally, covers):
     thorough = ctx.tier == 'thorough'
     backends = ['file', 'sqlite', 'mbtiles-ts', 'file-tms', 'file-arcgis'] if thorough else ['file', 'sqlite']
-    num = 40 if thorough else 14
+    num = 40 if thorough else 10
     depth = 24 if thorough else 16
-    nrep = 0
+    nrep = [0]
+
+    def replay_all(behs, backend, path, ntiles, what):
+        name = '%s-%s' % (backend, path)
+        for beh in behs:
+            w = World(os.path.join(ctx.sub('world'), name), backend, path, ntiles)
+            try:
+                res = replay_behaviour(w, beh, tally)
+            finally:
+                w.close()
+            nrep[0] += 1
+            ctx.cov['replayed_behaviours'] += 1
+            ctx.cov['replayed_steps'] += len(beh) - 1
+            ctx.count(('replay', name, tuple(a for a, _ in beh[1:])))
+            if res is not None:
+                i, text, events = res
+                ctx.violation(dict(classify(events[-1], text), kind='replay', path=path),
+                              '%s/%s path (%s): %s' % (backend, path, what, text),
+                              {'backend': backend, 'path': path, 'ntiles': ntiles, 'precedence': prec,
+                               'history': [a for a, _ in beh[1:i + 2]], 'events': events})
+
+    # (1) class cover of the exhaustive small model: one shortest behaviour per class of transition
+    for (path, trunc), behs in sorted(covers.items()):
+        for backend in backends:
+            if BACKENDS[backend][0] == trunc and (thorough or backend == 'file'):
+                replay_all(behs, backend, path, 2, 'class cover')
+    ctx.log('replayed %d class-cover behaviours on the real code' % nrep[0])
+    # (2) random walks of a larger model
     for bi, backend in enumerate(backends):
         trunc = BACKENDS[backend][0]
         for path in ('single', 'meta'):
-            ntiles = 3 if (thorough or backend == 'file') else 2
+            ntiles = 3
             names = ['t%d' % (i + 1) for i in range(ntiles)]
-            name = '%s-%s' % (backend, path)
-            behs = simulate(ctx, name, names, path, trunc, FULL_RULES, FULL_SEED, prec, num, depth,
+            behs = simulate(ctx, '%s-%s' % (backend, path), names, path, trunc, FULL_RULES, FULL_SEED, prec, num, depth,
                             ctx.seed * 100 + 7 * bi + (1 if path == 'meta' else 0) + 1, 11)
-            for k, beh in enumerate(behs):
-                w = World(os.path.join(ctx.sub('world'), name), backend, path, ntiles)
-                try:
-                    res = replay_behaviour(w, beh, tally)
-                finally:
-                    w.close()
-                nrep += 1
-                ctx.cov['replayed_behaviours'] += 1
-                ctx.cov['replayed_steps'] += len(beh) - 1
-                ctx.count(('replay', name, tuple(a for a, _ in beh[1:])))
-                if res is not None:
-                    i, text, events = res
-                    ctx.violation(dict(classify(events[-1], text), kind='replay', path=path),
-                                  '%s/%s path: %s' % (backend, path, text),
-                                  {'backend': backend, 'path': path, 'ntiles': ntiles, 'precedence': prec,
-                                   'history': [a for a, _ in beh[1:i + 2]], 'events': events})
+            replay_all(behs, backend, path, ntiles, 'simulation')
             if bi == 0 and path == 'single':
-                ctx.sample({'kind': 'TLC behaviour of Expiry replayed on the real TileManager (%s)' % name,
+                ctx.sample({'kind': 'TLC behaviour of Expiry replayed on the real TileManager (%s/%s)' % (backend, path),
                             'actions': [a for a, _ in behs[0][1:10]]})
-    ctx.log('replayed %d TLC behaviours on the real code' % nrep)
+    ctx.log('replayed %d TLC behaviours on the real code' % nrep[0])
 
 
 # ---- code -> spec ----------------------------------------------------------------------------
@@ -967,9 +994,9 @@ def run(ctx):
     install()
     try:
         prec = detect_precedence(ctx)
-        model_checks(ctx, prec)
+        covers = model_checks(ctx, prec)
         tally = Tally()
-        spec_to_code(ctx, prec, tally)
+        spec_to_code(ctx, prec, tally, covers)
         tally.check('replayed behaviours:')
         tally2 = Tally()
         code_to_spec(ctx, prec, tally2)
